@@ -234,6 +234,7 @@ func (a *AddExp) Eval(env Env) (Exp, bool) {
 	newTerms := []Exp{} // 評価された非定数項を保持するために Exp インターフェースを使用します
 	newOps := []string{}
 	reduced := headReduced // head の簡約ステータスから開始します
+	leadingMinus := false  // 最初に残る非定数項の前の演算子が '-' だった場合 true
 
 	// 評価された head を処理します
 	if v, ok := env.GetConstValue(evalHead); ok {
@@ -270,6 +271,9 @@ func (a *AddExp) Eval(env Env) (Exp, bool) {
 			// 先行する項があった場合にのみ演算子を追加します
 			if len(newTerms) > 0 { // 最初の項でない場合に演算子を追加します
 				newOps = append(newOps, op)
+			} else if op == "-" {
+				// 最初に残る項が減算される場合 (例: 10 - A)、その項を head にすると符号が失われます
+				leadingMinus = true
 			}
 			newTerms = append(newTerms, evalTail)
 		}
@@ -289,14 +293,20 @@ func (a *AddExp) Eval(env Env) (Exp, bool) {
 	finalTerms := []Exp{}
 	finalOps := []string{}
 
-	// 最初に非定数項を追加します
-	if len(newTerms) > 0 {
+	if leadingMinus {
+		// K - A ...: 定数の合計 (0 でも) を head に置き、'-' を A の前に保ちます
+		finalTerms = append(finalTerms, NewNumberExp(ImmExp{BaseExp: a.BaseExp}, int64(constSum)))
+		finalTerms = append(finalTerms, newTerms...)
+		finalOps = append(finalOps, "-")
+		finalOps = append(finalOps, newOps...)
+	} else if len(newTerms) > 0 {
+		// 最初に非定数項を追加します
 		finalTerms = append(finalTerms, newTerms...)
 		finalOps = append(finalOps, newOps...) // 非定数項間の元の演算子を保持します
 	}
 
 	// ゼロでない場合は、最後に定数の合計を追加します
-	if constSum != 0 {
+	if constSum != 0 && !leadingMinus {
 		constTerm := NewNumberExp(ImmExp{BaseExp: a.BaseExp}, int64(constSum))
 		if len(finalTerms) > 0 {
 			// 他の項が存在する場合、定数項の前に '+' または '-' 演算子を追加します
